@@ -357,7 +357,10 @@ Fixpoint rfields (t : rterm) : list (option ptab * string) :=
   end.
 
 Definition is_dml (s : qst) : bool := is_some (q_insert s) || is_some (q_update s) || q_delete s.
-Definition join_tables (s : qst) : list ptab := flat_map (fun j => odefault [] (j_crit j)) (q_joins s).
+(* _validate_returning_term: for j in self._joins: the joined item when it is a Table, and criterion.tables_ when the join
+   has a criterion (JoinUsing and the CROSS Join have none) *)
+Definition join_tables (s : qst) : list ptab :=
+  flat_map (fun j => match j_item j with TTab p => [p] | _ => [] end ++ odefault [] (j_crit j)) (q_joins s).
 
 (* _validate_returning_term (after a9c45a1): for every field of the term (find_(Field), no set), judged by its own
    table:  not (field.table in {insert, update})  and  isinstance(field.table, Table) and field.table not in
@@ -367,7 +370,6 @@ Definition validate_ret1 (s : qst) (acc : res unit) (f : tref) : res unit :=
   | Err e => Err e
   | Ok _ =>
       if negb (is_dml s) then Err QueryExc
-      else if existsb (fun j => is_none (j_crit j)) (q_joins s) then Err AttrErr  (* j.criterion on JoinUsing/Join *)
       else
         let in_targets := mem f [option_map TTab (q_insert s); option_map TTab (q_update s)] in
         let join_and_base := q_from s ++ map TTab (join_tables s) in
@@ -517,20 +519,16 @@ Definition step_q (s : qst) (c : qcall) : res qst :=
       end
   end.
 
-(* Python-level crashes that are no guards (IndexError on _from[0], AttributeError on
-   JoinUsing.criterion, a method that exists only on another dialect): excluded from the statement *)
-Definition has_fields (t : rterm) : bool := match rfields t with [] => false | _ => true end.
-Definition needs_crit (t : rterm) : bool :=
-  match t with RStr false => true | RStr true => false | _ => has_fields t end.
+(* Python-level crashes that are no guards (IndexError on _from[0], a method that exists only on another dialect):
+   excluded from the statement *)
 Definition wf_q (s : qst) (c : qcall) : bool :=
   applicable (q_cls s) c &&
   match c with
   | QJoin _ (JOnField n) => Nat.eqb n 0 || truthy (List.length (q_from s))
   | QReturning ts =>
-      (* returning('name') on a DELETE reads _from[0]; a term with fields reads j.criterion of every join *)
-      (negb (existsb (fun t => match t with RStr false => true | _ => false end) ts)
-       || is_some (q_insert s) || is_some (q_update s) || negb (q_delete s) || truthy (List.length (q_from s)))
-      && (negb (existsb needs_crit ts) || negb (existsb (fun j => is_none (j_crit j)) (q_joins s)))
+      (* returning('name') on a DELETE reads _from[0] *)
+      negb (existsb (fun t => match t with RStr false => true | _ => false end) ts)
+      || is_some (q_insert s) || is_some (q_update s) || negb (q_delete s) || truthy (List.length (q_from s))
   | _ => true
   end.
 
@@ -577,8 +575,8 @@ Fixpoint effective (star : bool) (ts : list rterm) : list rterm :=
   | t :: r => t :: effective star r
   end.
 Definition is_fn (t : rterm) : bool := match t with RFn _ _ | RArith _ _ => true | _ => false end.
-(* a field is the statement's own when it is table-less, on the INSERT/UPDATE target, on a FROM table or
-   on a table named by a join criterion *)
+(* a field is the statement's own when it is table-less, on the INSERT/UPDATE target, on a FROM table, on a joined
+   table (ON, USING or CROSS join) or on a table named by a join criterion *)
 Definition own_field (s : qst) (f : option ptab) : bool :=
   match f with
   | None => true
